@@ -41,7 +41,7 @@ from oas_schema import INT_FORMATS, Ctx, Gen, normalise_numbers  # noqa: E402
 
 PROP = "C07"
 ENGINE = "c07-zoo-replay"
-RULE = ("API zoo (63 operations: every extractor combination and response kind) served by the real dropshot "
+RULE = ("API zoo (72 operations: every extractor combination and response kind) served by the real dropshot "
         "server; per operation N positive requests built only from the published document, pagination follow-ups, "
         "one negative per required query parameter, malformed bodies, 404/405; class = (operationId, request "
         "variant, response status)")
